@@ -423,6 +423,12 @@ impl<T: Clone + Eq + Debug + Default> WrappedBlock<T> {
 
                 // Write any remaining whitespace
                 while self.wslen > 0 {
+                    if self.width == 0 {
+                        // A zero-width block has no room for the whitespace, and
+                        // copying zero columns at a time would never finish.
+                        self.wslen = 0;
+                        break;
+                    }
                     let to_copy = self.wslen.min(self.width);
                     self.line.push_ws(to_copy, self.spacetag.as_ref().unwrap());
                     if to_copy == self.width {
